@@ -39,6 +39,10 @@ def materialise(layout, base):
             p = os.path.join(root, 'vqa', '__init__.py')
             write(p)
             files.append((p, 'vqa', True))
+            if spec.get('ext'):
+                # a compiled-extension child (an empty file with the platform's extension suffix): only its enumeration is judged
+                import importlib.machinery
+                write(os.path.join(root, 'vqa', 'vqx' + importlib.machinery.EXTENSION_SUFFIXES[0]))
             for key, nm in (('c', 'vqc'), ('d', 'vqd')):
                 ck = a[key]
                 if ck == 'module':
